@@ -148,6 +148,19 @@ def exec_enum_trees(trace, ctx):
         check_displacement(ctx, before, snap_, atom_index, out)
         seen["d"] = np.array(out, copy=True)
         return out
+    if trace.get("first", 0) == 0:
+        # the smallest tree of all: one atom, no bond, an explicit displacement (the table may list the atom with no
+        # neighbours, or not at all)
+        for table1 in ({0: []},):
+            p1 = np.array([[rng.uniform(-3, 3) for _ in range(3)]])
+            d1 = np.array(gen.unit_vec(rng)) * rng.choice([0.01, 1.0])
+            try:
+                out1 = move_mol_atom(p1.copy(), table1, atom_index=0, displ=d1.copy())
+            except Exception as e:
+                ctx.violate("C07", "move-raised", f"one-atom molecule, table {table1}: {type(e).__name__}: {e}")
+                break
+            check_move(ctx, p1, p1.copy(), table1, 0, d1, out1, tree=True)
+        ctx.probe("one_atom_tree")
     for idx in range(trace["first"], trace["last"]):
         edges = tree_by_index(n, idx)
         pos = np.array(gen.grow_positions(rng, n, edges, 0.15))
@@ -401,6 +414,16 @@ def exec_chi2(trace, ctx):
         return
     path = "none" if not restr else ("all" if len({r[0] for r in restr}) == nf else "some")
     ctx.counters["chi2_path:" + path] += 1
+    def refused_evaluation():
+        """An evaluation the calculator must refuse (a configuration with a missing column / too few atoms for the restraints):
+        whatever it raises, the valid evaluations around it must be unaffected."""
+        bad_ = mob0[:, :2].copy() if rng.random() < 0.5 or nm < 2 else mob0[:max(1, nm // 2)].copy()
+        try:
+            calc(bad_)
+        except Exception:
+            ctx.fault("refused_chi2_evaluation")
+    if trace["seed"] % 4 == 1:
+        refused_evaluation()          # ... also as the very FIRST evaluation of a calculator
     work = mob0.copy()          # ONE buffer handed to the calculator again and again, modified in place in between
     reuse_buffer = trace["seed"] % 3 == 1
     if reuse_buffer:
@@ -425,6 +448,8 @@ def exec_chi2(trace, ctx):
                 for _ in range(rng.randint(1, 3)):
                     mob[rng.randrange(nm)] = fixed[rng.randrange(nf)]
         prev_mob = mob.copy()
+        if rep in (2, 5) and trace["seed"] % 4 in (1, 2):
+            refused_evaluation()
         if reuse_buffer:
             work[:] = mob
             arg = work
@@ -677,6 +702,14 @@ def exec_frames(trace, ctx):
             a = np.array(gen.rvec(rng, 1.0)) * scale
             b = a + np.array(gen.unit_vec(rng)) * scale * rng.uniform(0.01, 2)
             pts = [a, a.copy(), b]
+        if kind in ("generic", "grid", "band") and rng.random() < 0.25:
+            # one of the three points EXACTLY at the origin (+0.0 or -0.0): a valid point like any other
+            kz = rng.randrange(3)
+            shift_ = pts[kz].copy()
+            pts = [p_ - shift_ for p_ in pts]
+            if rng.random() < 0.4:
+                pts[kz] = np.array([-0.0, 0.0, -0.0])
+            ctx.probe("frame_point_exactly_at_origin")
         order = rng.random()
         try:
             if reuse:
